@@ -70,6 +70,7 @@ let hex_of_z = function
   | Zpos p -> hex_of_n (Npos p)
   | Zneg p -> "-" ^ hex_of_n (Npos p)
 
+
 let rec int_of_pos = function XH -> 1 | XO p -> 2 * int_of_pos p | XI p -> 2 * int_of_pos p + 1
 let int_of_n = function N0 -> 0 | Npos p -> int_of_pos p
 
@@ -86,6 +87,13 @@ let dump (s : bvs) =
         go (k + 1) rest (hex_of_lsb_bits (take keep (lsb_bits_n w)) :: acc) in
     String.concat "," (go 0 ws []) in
   Printf.sprintf "%d[%s]" size (String.concat "|" (List.map plane_str s.planes))
+
+
+let bytes_of_hex s =
+  if s = "_" then [] else
+  List.init (String.length s / 2) (fun k -> n_of_hex (String.sub s (2 * k) 2))
+let hex_of_bytes l =
+  if l = [] then "_" else String.concat "" (List.map (fun b -> Printf.sprintf "%02x" (int_of_n b)) l)
 
 let ascii_of_char c =
   let v = Char.code c in
@@ -165,7 +173,20 @@ let () =
           | "merge", [rd; sd; rs; ss; z] -> run_step (OMerge (nt rd, n sd, nt rs, n ss, n z)) (i rd)
           | "insbig", [r; o; s; v] -> run_step (OInsertBig (nt r, n o, n s, z_of_hex v)) (i r)
           | "extbig", [r; o; s] -> run_step (OExtractBig (nt r, n o, n s)) (-1)
-          | ("parse" | "print" | "fmt" | "fmtr"), _ -> seq_open := false
+          | "extbigall", [r] -> run_step (OExtractBig (nt r, N0, (getreg (i r)).bsize)) (-1)
+          | "alldef", [r; s; z] -> run_step (OAllOne (nt r, S O, n s, n z)) (-1)
+          | "assign", [rd; rs] -> run_step (OAssign (nt rd, nt rs)) (i rd)
+          | "swap", [ra; rb] -> run_step (OSwap (nt ra, nt rb)) (i ra)
+          | "move", [rd; rs] -> run_step (OMove (nt rd, nt rs)) (i rd)
+          | "clearresize", [r; x] -> run_step (OClearResize (nt r, n x)) (i r)
+          | "head", [r; p] -> run_step (OHead (nt r, nt p)) (-1)
+          | "alldefns", [r; s; z] -> run_step (OAllDefNS (nt r, n s, n z)) (-1)
+          | "asbytes", [r; p] -> run_step (OAsBytes (nt r, nt p)) (-1)
+          | "eqbytes", [r; h] -> run_step (OEqBytes (nt r, bytes_of_hex h)) (-1)
+          | "iterread", [r; p; o; s] -> run_step (OIterRead (nt r, nt p, n o, n s)) (-1)
+          | "iterwrite", [r; p; o; s; v] -> run_step (OIterWrite (nt r, nt p, n o, n s, n_of_hex v)) (i r)
+          | ("parse" | "pbv" | "cdv" | "cdd" | "parsebit"), _ -> seq_open := false
+          | ("print" | "fmt" | "fmtr" | "bitneg" | "asdata" | "convext" | "convdef"), _ -> ()
           | _ -> failwith ("bad op line: " ^ line));
          (match name, args with
           | "parse", r :: rest ->
@@ -181,7 +202,26 @@ let () =
             obs := "\"" ^ string_of_ascii_list (formatState (getreg (i r)) (n base) (b drop)) ^ "\""
           | "fmtr", [r; base; o; s] ->
             obs := "\"" ^ string_of_ascii_list (formatRange (getreg (i r)) (n base) (n o) (n s)) ^ "\""
-          | ("parse" | "print" | "fmt" | "fmtr"), _ -> failwith ("bad op line: " ^ line)
+          | "bitneg", [v; w] -> obs := hex_of_z (bitwiseNegation (z_of_hex v) (n w))
+          | "pbv", [r; v; w] -> setreg (i r) (parseBitVectorValue (n_of_hex v) (n w)); target := i r
+          | "cdv", [r; w; v] ->
+            (match createDefaultValue (n w) (n_of_hex v) with
+             | Some s -> setreg (i r) s; obs := "1"
+             | None -> obs := "EXC");
+            target := i r
+          | "cdd", [r; w; h] -> setreg (i r) (createDefaultData (n w) (bytes_of_hex h)); target := i r
+          | "parsebit", [r; c] ->
+            (match (if c = "true" then Some (parseBitBool true) else if c = "false" then Some (parseBitBool false)
+                    else parseBitChar (ascii_of_char c.[0])) with
+             | Some s -> setreg (i r) s; obs := "1"
+             | None -> obs := "0");
+            target := i r
+          | "asdata", [r; f] ->
+            obs := (match asData (getreg (i r)) (bytes_of_hex f) with Some l -> hex_of_bytes l | None -> "EXC")
+          | "convext", [r] -> obs := dump (convertToExtended (getreg (i r)))
+          | "convdef", [r] -> obs := (match tryConvertToDefault (getreg (i r)) with Some s -> dump s | None -> "none")
+          | ("parse" | "print" | "fmt" | "fmtr" | "bitneg" | "pbv" | "cdv" | "cdd" | "parsebit" | "asdata" | "convext" | "convdef"), _ ->
+            failwith ("bad op line: " ^ line)
           | _ -> ());
          Buffer.add_string out
            (Printf.sprintf "%s:%d %s %s %s\n" !seqid !idx name !obs
